@@ -22,7 +22,8 @@ Kinds == <<"declq","declq","declarr","new","new","gate","gate","gate","cx","cx",
 \* a singleton quantifier ( \E x \in {Pick(S)} ). Kinds are filtered by cheap guards first so that the
 \* randomly chosen action is (almost always) enabled and every simulation step makes progress.
 Room       == MaxQ - (sim.n - Len(free))
-FitClasses == {c \in Classes : TotalWidth(c) <= Room}
+\* QM's destructor applies h: not available over the basis-state model
+FitClasses == {c \in Classes : TotalWidth(c) <= Room /\ (c # "QM" \/ ~BasisOnly)}
 NoObjHere  == ~\E i \in 1..Len(vars) : InScope(i) /\ vars[i].k = "obj" /\ vars[i].depth = depth /\ vars[i].live
 More       == Len(prog) < MaxLen
 Guard(kind) ==
